@@ -120,7 +120,9 @@ func (e *c08eval) run(src string) c08res {
 	case co.Panic != "":
 		r = c08res{class: "panic", msg: co.Panic}
 	case co.Err != nil:
-		r = c08res{class: "cfail", msg: core.NormMsg(co.Err.Error())}
+		// never render a compile error: wbnf's ParseError.Error() takes exponential time on some inputs
+		// (`(cond # c⏎{0: 1})` does not return within minutes; recorded under C10)
+		r = c08res{class: "cfail", msg: fmt.Sprintf("%T", co.Err)}
 	default:
 		o := obs.Eval(expr, rel.EmptyScope)
 		switch {
@@ -424,7 +426,7 @@ func checkC08(w *core.W) {
 
 var C08 = core.Check{
 	ID: "C08", Level: "exploration", Fn: checkC08, Watchdog: 60 * time.Second,
-	Rule: "family G: every closed, well-scoped program of five small grammars (bind: let/\\/call/->/+ over {1,2},{x,y}, <=5 nodes quick, <=6 thorough; coll: => >> :> where, prefix =>, .a, count, displays over 4 literals, <=4 (+ a 3-arrow sub-grammar <=5 thorough); fnarrow: function literals and names right of => where ->, <=5; sugar: set/array/tuple/dict displays over 7 (11) literals incl. string, array, dict, true, <=4 (+4 literals <=5 thorough); lazy: cond && || (if thorough) with let, .a, <, <=5 (6)) x EVERY applicable rewrite at EVERY position: R1 let = arrow = apply, R2 sugar = set of tuples = relation literal (literals, array/dict displays with computed parts, sets of tuples), R3 implicit \\. = explicit \\. = fresh name, omitted lhs = `.`, R4 parentheses around every node and comment (+ blanks thorough) around every compound node, and a comment at every inter-token blank of the printed program (bind, lazy and seed programs; all thorough), R5 minimal vs full parentheses, R6 capture-avoiding substitution of a let-bound value (syntactic value, or closed rhs that evaluates), R7 every unselected cond/&&/||/if branch replaced by a failing expression. family S: 40 fixed larger programs (curried calls, chained tails, shadowing closures, nested implicit binders, destructuring patterns) x the same rewrites. family L: 22 sugared literal spellings (quotes, escapes, sparse/nested arrays, bytes, dicts, true/false) x 4 contexts vs hand-written spelled-out forms. family P: every ordered pair of operator constructors (24 quick: 1-2 per level of the table; 66 thorough: every operator of the table) x every operand hole x all assignments of 2 (3) typed leaves per hole, minimal parentheses by the documented table vs fully parenthesised. Both sources are compiled and evaluated by the implementation and compared by denotation (obs.Denote encoding; functions by application to 5 arguments, two levels deep); a pair agrees iff both fail or both yield equal denotations. non-trivial = the two sources differ textually and at least one of them evaluates to a value",
+	Rule: "family G: every closed, well-scoped program of five small grammars (bind: let/\\/call/->/+ over {1,2},{x,y}, <=5 nodes quick, <=6 thorough; coll: => >> :> where, prefix =>, .a, count, displays over 4 literals, <=4 (+ a 3-arrow sub-grammar <=5 thorough); fnarrow: function literals and names right of => where ->, <=5; sugar: set/array/tuple/dict displays over 7 (11) literals incl. string, array, dict, true, <=4 (+4 literals <=5 thorough); lazy: cond && || (if thorough) with let, .a, <, <=5 (6)) x EVERY applicable rewrite at EVERY position: R1 let = arrow = apply, R2 sugar = set of tuples = relation literal (literals, array/dict displays with computed parts, sets of tuples), R3 implicit \\. = explicit \\. = fresh name, omitted lhs = `.`, R4 parentheses around every node and comment (+ blanks thorough) around every compound node, and a comment at every inter-token blank of the printed program (bind, lazy and seed programs; all thorough), R5 minimal vs full parentheses, R6 capture-avoiding substitution of a let-bound value (syntactic value, or closed rhs that evaluates), R7 every unselected cond/&&/||/if branch replaced by a failing expression. family S: 45 fixed larger programs (curried calls, chained tails, shadowing closures, nested implicit binders, destructuring patterns) x the same rewrites. family L: 22 sugared literal spellings (quotes, escapes, sparse/nested arrays, bytes, dicts, true/false) x 4 contexts vs hand-written spelled-out forms. family P: every ordered pair of operator constructors (24 quick: 1-2 per level of the table; 66 thorough: every operator of the table) x every operand hole x all assignments of 2 (3) typed leaves per hole, minimal parentheses by the documented table vs fully parenthesised. Both sources are compiled and evaluated by the implementation and compared by denotation (obs.Denote encoding; functions by application to 5 arguments, two levels deep); a pair agrees iff both fail or both yield equal denotations. non-trivial = the two sources differ textually and at least one of them evaluates to a value",
 	Assume: []string{
 		"the precedence/associativity specification is the table of DESIGN.md Appendix A (transcribed from rule expr of syntax/arrai.wbnf at the pinned commit), carried as data in harness/c08util/print.go",
 		"`. where`, `. & x`, `. | x |` lex as attribute access/projection: the printer parenthesises a left operand ending in the name `.` before such operators (lexical, outside the table)",
